@@ -157,7 +157,12 @@ IndexCheck(st) ==
       again == IF "IndexCoercionReportedTwice" \in st.dev /\ st.S.index.coerce
                THEN Labelled(CoerceErrors(st.S.index.dtype, IdxField(st.obj)), [ i \in 1..Len(st.obj.idx) |-> iv(i - 1) ])
                ELSE <<>>
-  IN Goto(Collect(st, again \o Labelled(FieldErrors(st.S.index, IdxField(st.obj)), labels)), "index_done")
+      (* with head / tail / sample the index component is shown the selected rows only; the index is turned into a  *)
+      (* series labelled by POSITION before it is subsampled, so the selection is by position also as shipped       *)
+      pos  == IF st.sel.all THEN [ i \in 1..Len(st.obj.idx) |-> i ] ELSE DedupByPos(st.sel.pos)
+      sub  == IF st.sel.all THEN st.obj ELSE SubField(st.obj, pos)
+      labs == [ k \in 1..Len(pos) |-> labels[pos[k]] ]
+  IN Goto(Collect(st, again \o Labelled(FieldErrors(st.S.index, IdxField(sub)), labs)), "index_done")
 
 IndexDone(st) ==
   [Goto(st, "done") EXCEPT !.out = IF st.errs = <<>> THEN [kind |-> "ok", returned |-> st.obj] ELSE Raise(st)]
